@@ -445,7 +445,7 @@ func benignAll(args []string) int {
 	if dir == "" {
 		dir = "/repo"
 	}
-	props := []string{"C01", "C02", "C03", "C04", "C06", "C07", "C09", "C10", "C11", "C12", "C13", "C14", "C15", "C16", "C17", "C18", "C19", "C20"}
+	props := []string{"C01", "C02", "C03", "C04", "C05", "C06", "C07", "C09", "C10", "C11", "C12", "C13", "C14", "C15", "C16", "C17", "C18", "C19", "C20"}
 	knownSet := map[string]bool{}
 	for _, k := range known.Known {
 		knownSet[k.Property+"|"+k.Key] = true
@@ -544,11 +544,15 @@ func loadSeeded(dir string) []seededVariant {
 		}
 		v.Name = filepath.Base(filepath.Dir(f))
 		var meta struct {
-			Property string              `json:"property"`
-			Checks   map[string][]string `json:"checks_reporting"`
+			Property    string              `json:"property"`
+			Checks      map[string][]string `json:"checks_reporting"`
+			Neutralised string              `json:"neutralised"`
 		}
 		if mb, err := os.ReadFile(filepath.Join(filepath.Dir(f), "meta.json")); err == nil {
 			_ = json.Unmarshal(mb, &meta)
+		}
+		if meta.Neutralised != "" {
+			continue // no longer breaks the property on the current tree (a later fix made it harmless): kept, not replayed
 		}
 		v.Property = meta.Property
 		for p := range meta.Checks {
@@ -564,13 +568,18 @@ func loadSeeded(dir string) []seededVariant {
 func seededAll(args []string) int {
 	fs := flag.NewFlagSet("seeded", flag.ExitOnError)
 	verif := fs.String("verif", "/verif", "verif directory")
+	only := fs.String("name", "", "only the variants whose name contains one of these comma-separated strings")
+	onlyProps := fs.String("p", "", "only these comma-separated properties")
 	_ = fs.Parse(args)
 	known, _ := core.LoadKnown(*verif + "/known_findings.json")
 	dir := os.Getenv("VERIF_REPO")
 	if dir == "" {
 		dir = "/repo"
 	}
-	props := []string{"C01", "C02", "C03", "C04", "C06", "C07", "C09", "C10", "C11", "C12", "C13", "C14", "C15", "C16", "C17", "C18", "C19", "C20"}
+	props := []string{"C01", "C02", "C03", "C04", "C05", "C06", "C07", "C09", "C10", "C11", "C12", "C13", "C14", "C15", "C16", "C17", "C18", "C19", "C20"}
+	if *onlyProps != "" {
+		props = strings.Split(*onlyProps, ",")
+	}
 	knownSet := map[string]bool{}
 	for _, k := range known.Known {
 		knownSet[k.Property+"|"+k.Key] = true
@@ -578,6 +587,15 @@ func seededAll(args []string) int {
 	caught := 0
 	total := 0
 	for _, v := range loadSeeded(filepath.Join(*verif, "seeded")) {
+		if *only != "" {
+			match := false
+			for _, w := range strings.Split(*only, ",") {
+				match = match || strings.Contains(v.Name, w)
+			}
+			if !match {
+				continue
+			}
+		}
 		ov := map[string][]byte{}
 		for p, content := range v.Files {
 			ov[filepath.Join(dir, p)] = []byte(content)
@@ -593,7 +611,11 @@ func seededAll(args []string) int {
 			sink := core.NewSink()
 			ctx := &rules.Ctx{P: prog, S: sink}
 			func() {
-				defer func() { recover() }()
+				defer func() {
+					if r := recover(); r != nil {
+						fmt.Printf("PANIC %s %s: %v\n", v.Name, p, r)
+					}
+				}()
 				for _, r := range rules.For(p) {
 					r.Run(ctx)
 				}
